@@ -1,0 +1,55 @@
+/*
+ *  Verification hooks.  Everything in this header is compiled out unless the
+ *  library is built with -DLIBFIVE_VERIF; with the guard off every macro
+ *  expands to nothing and no symbol is emitted.
+ */
+#pragma once
+
+#ifdef LIBFIVE_VERIF
+#include <atomic>
+#include <cstdint>
+
+namespace libfive {
+namespace verif {
+
+/*  Callback invoked at instrumented sites (null by default).
+ *  site: one of the SITE_* constants below; a, b: site-specific payload;
+ *  p: site-specific pointer (identity of the object involved, or data) */
+typedef void (*PointFn)(int site, int64_t a, int64_t b, const void* p);
+inline std::atomic<PointFn> point_fn{nullptr};
+
+/*  Number of TreeData nodes currently alive */
+inline std::atomic<int64_t> live_nodes{0};
+
+inline void point(int site, int64_t a=0, int64_t b=0, const void* p=nullptr) {
+    if (auto f = point_fn.load(std::memory_order_acquire)) {
+        f(site, a, b, p);
+    }
+}
+
+enum Site {
+    SITE_POOL_POP        = 1,   // worker pool: task popped (a = level)
+    SITE_POOL_EVAL_DONE  = 2,   // worker pool: cell evaluated (a = level, b = 1 if terminal/leaf)
+    SITE_POOL_PENDING    = 3,   // worker pool: pending-- observed value a on parent p
+    SITE_POOL_TICK       = 4,   // progress tick (a = count)
+    SITE_POOL_EXIT       = 5,   // worker leaves its loop (a = 1 if cancelled)
+    SITE_DUAL_POP        = 6,   // dual walk: task popped
+    SITE_DUAL_EXIT       = 7,
+    SITE_INDEX_POP       = 8,   // simplex assignIndices worker
+    SITE_INDEX_EXIT      = 9,
+    SITE_RENDER_PHASE    = 10,  // Mesh::render phase boundary (a = phase id, b = 0 begin / 1 end)
+    SITE_TET             = 11,  // simplex/hybrid mesher: p -> uint64_t[5] = {v0,v1,v2,v3,mask}
+    SITE_QUAD            = 12,  // dc mesher: p -> uint64_t[6]
+    SITE_TREE_STEP       = 13,  // refcount step (a = kind, b = observed value, p = node)
+    SITE_RESET_TICK      = 14,  // object pool reset tick
+};
+
+}   // namespace verif
+}   // namespace libfive
+
+#define LIBFIVE_VERIF_POINT(...) ::libfive::verif::point(__VA_ARGS__)
+#define LIBFIVE_VERIF_ONLY(...) __VA_ARGS__
+#else
+#define LIBFIVE_VERIF_POINT(...) ((void)0)
+#define LIBFIVE_VERIF_ONLY(...)
+#endif
